@@ -270,3 +270,281 @@ Section Ext.
     auto.
   Qed.
 End Ext.
+
+(* ---------------------------------------------------------------- generic name bookkeeping *)
+Lemma section_add_gen take s E J n F K cur rest :
+  n <> [] -> ncheck_go n true take = 0 -> existsb (Z.eqb SEP) n = false ->
+  pth s = mkPath E (J ++ rev n) (len (J ++ rev n)) F K true -> valid s = len n ->
+  exists s', section_add take cur rest s = (PSection, rest, s') /\
+             pelems (pth s') = E ++ [n] /\ pbuf (pth s') = true /\ pcurr s' = cur.
+Proof.
+  intros NE NK NS HP HV. unfold section_add.
+  assert (P1 : pth (with_curr s cur) = mkPath E (J ++ rev n) (len (J ++ rev n)) F K true) by now rewrite pth_with_curr.
+  assert (V1 : valid (with_curr s cur) = len n) by now rewrite valid_with_curr.
+  rewrite (ncheck_name _ _ _ _ _ _ take P1 V1 NE), NK. zb.
+  rewrite P1, V1. destruct (path_add_nosep E J n F K NS) as (p1 & PA & PE & PB). rewrite PA. zb.
+  eexists. split; [reflexivity|]. autorewrite with pst. auto.
+Qed.
+
+Lemma name_end_spec d : exists w0, name_end d = [w0] /\ isspace w0 = true /\ 0 < w0 < 256.
+Proof.
+  unfold name_end. pose proof (ws_spaces (d_mid1 d)) as FW. destruct (ws (d_mid1 d)) as [|c r].
+  - exists 10. repeat split; reflexivity || lia.
+  - pose proof (Forall_inv FW) as Hc. cbn beta in Hc. exists c. split; [reflexivity|]. split; [exact Hc|].
+    apply isspace_spec in Hc. lia.
+Qed.
+
+Lemma wf_name_wfo st take n : st = StEnc \/ st = StSep \/ st = StEncD -> wf_name st take n = true ->
+  wfo take n /\ Forall (fun c => c <> 37 \/ st <> StEnc) n /\ Forall (fun c => (c <> 91 /\ c <> 93) \/ st = StEnc) n.
+Proof.
+  intros ST. unfold wf_name. destruct n as [|c0 n']; [discriminate|].
+  rewrite !andb_true_iff, !negb_true_iff, Z.eqb_eq, Z.leb_le. intros ((((A & B) & C) & D) & E).
+  assert (FA : Forall (fun c => name_char st c = true) (c0 :: n')) by (apply Forall_forall; now apply forallb_forall).
+  split; [constructor; auto; try discriminate|].
+  - eapply Forall_impl; [|exact FA]. intros c H. apply onc_spec. unfold name_char, byteb in H.
+    destruct ST as [->|[->| ->]]; rewrite !andb_true_iff, !negb_true_iff, !Z.leb_le, !Z.eqb_neq in H;
+      repeat split; try lia; tauto.
+  - split; eapply Forall_impl; try exact FA; intros c H; unfold name_char in H;
+      destruct ST as [->|[->| ->]]; rewrite !andb_true_iff, !negb_true_iff, !Z.eqb_neq in H;
+      try (left; tauto); try (right; discriminate); try (right; reflexivity); try (left; lia).
+Qed.
+
+(* ---------------------------------------------------------------- enclosed style *)
+Lemma enc_name_loop : forall w s d l E R F,
+  Forall (fun c => onc c = true) w -> isspace d = true -> 0 < d < 256 -> R <> [] ->
+  pth s = mkPath E R (len R) F true true -> valid s = len R -> len R + len w < VALID_MOD ->
+  exists s', enc_loop fe (w ++ d :: l) s = (true, l, s') /\
+             pth s' = mkPath E (d :: rev w ++ R) (len (d :: rev w ++ R)) F true true /\
+             valid s' = len (rev w ++ R) /\ pcurr s' = pcurr s.
+Proof.
+  induction w as [|c w IH]; intros s d l E R F FA SD BD NR HP HV HL.
+  - cbn [app enc_loop]. zb. rewrite SD. eexists. split; [reflexivity|]. cbn [rev app].
+    split; [rewrite pth_addch, pth_tick, HP; now rewrite addchar_keep by lia|].
+    split; now autorewrite with pst.
+  - inversion FA as [|? ? Hc FA']; subst. apply onc_spec in Hc as Hc'. destruct Hc' as (B & SP & _ & N35 & _).
+    cbn [app enc_loop]. zb. rewrite SP. unfold iscomment. cbn [fe com0 com1 com2 com3]. zb. cbn [negb orb andb].
+    rewrite len_cons in HL. pose proof (len_nonneg w). pose proof (len_nonneg R).
+    assert (PA : pth (addch (tick s c) c) = mkPath E (c :: R) (len (c :: R)) F true true).
+    { rewrite pth_addch, pth_tick, HP. apply addchar_keep. lia. }
+    destruct (set_valid_path _ _ _ _ _ _ _ PA) as [P1 V1]; [rewrite len_cons; lia|].
+    destruct (IH (set_valid (addch (tick s c) c)) d l E (c :: R) F FA' SD BD) as (s' & E1 & P2 & V2 & C2);
+      [discriminate|exact P1|exact V1|rewrite len_cons; lia|].
+    exists s'. split; [exact E1|]. cbn [rev]. rewrite <- !app_assoc. cbn [app].
+    split; [exact P2|]. split; [exact V2|]. rewrite C2. now autorewrite with pst.
+Qed.
+
+Section Enc.
+  Variable a : allow.
+
+  (* the section name behind the start character *)
+  Lemma enc_section_name d n rest s E :
+    wfo (asect a) n -> ready s E ->
+    exists s', enc_section fe a (n ++ name_end d ++ rest) s = (PSection, rest, s') /\
+               pelems (pth s') = E ++ [n] /\ pbuf (pth s') = true /\ pcurr s' = Z.lor PSection PName /\ valid s' = 0.
+  Proof.
+    intros [NC NE NK NLEN] RD. destruct n as [|n0 n']; [now destruct NE|].
+    pose proof (Forall_inv NC) as H0. cbn beta in H0. apply onc_spec in H0 as H0'.
+    pose proof (Forall_inv_tail NC) as NC'.
+    destruct (name_end_spec d) as (w0 & -> & SW & BW).
+    unfold enc_section, nextvis. rewrite (nextvis_go_ext fe dfmt_fe). cbn [app].
+    rewrite nv_vis; [|lia|tauto|lia]. zb.
+    set (s1 := with_curr (tick (with_curr s PSection) n0) (Z.lor PSection PName)).
+    assert (RD1 : ready s1 E).
+    { destruct RD as (R1 & R2 & R3 & R4 & R5). subst s1. unfold ready. autorewrite with pst. auto. }
+    destruct (first_char_state s1 E n0 RD1) as [P2 V2]; [lia|].
+    rewrite len_cons in NLEN. unfold IDENT_MAX in NLEN. pose proof (len_nonneg n').
+    destruct (enc_name_loop n' (set_valid (addch s1 n0)) w0 rest E [n0] (pfirst (pth s1)) NC' SW BW) as (s3 & E3 & P3 & V3 & C3);
+      [discriminate|exact P2|exact V2|rewrite len_cons, len_nil; unfold VALID_MOD; lia|].
+    rewrite E3.
+    assert (P3' : pth s3 = mkPath E ([w0] ++ rev (n0 :: n')) (len ([w0] ++ rev (n0 :: n'))) (pfirst (pth s1)) true true) by exact P3.
+    assert (V3' : valid s3 = len (n0 :: n')).
+    { rewrite V3. unfold len. rewrite app_length, rev_length. cbn [length]. lia. }
+    rewrite (ncheck_name s3 _ _ _ _ _ (asect a) P3' V3'), NK by discriminate. zb.
+    rewrite P3', V3'. destruct (path_add_nosep E [w0] (n0 :: n') (pfirst (pth s1)) true (onc_nosep _ NC)) as (p1 & PA & PE & PB).
+    rewrite PA. zb. eexists. split; [reflexivity|]. cbn [pth pcurr valid].
+    rewrite C3. subst s1. autorewrite with pst. auto.
+  Qed.
+
+  Lemma enc_option d n v rest s E prev :
+    prev <> PSectEnd -> wfo (aopt a) n -> Forall (fun c => c <> 37) n -> wf_value v = true -> ready s E ->
+    exists s',
+      format_enc fe a prev (print_opt d n v ++ rest) s = ((match v with [] => 3 | _ => 7 end), rest, s') /\
+      pelems (pth s') = E ++ [n] /\ pcurr s' = 11 /\ valid s' = len v /\
+      (v <> [] -> post_read s' (len v) = Some v).
+  Proof.
+    intros PV WN N37 WV RD. unfold print_opt. rewrite <- !app_assoc.
+    destruct n as [|n0 n']; [now destruct (wo_ne _ _ WN)|].
+    pose proof (Forall_inv (wo_chars _ _ WN)) as H0. cbn beta in H0. apply onc_spec in H0 as H0'.
+    pose proof (Forall_inv N37) as H37. cbn beta in H37.
+    unfold format_enc. change (sstart fe =? send fe) with true. cbv iota.
+    apply Z.eqb_neq in PV. rewrite PV.
+    unfold nextvis. rewrite (nextvis_go_ext fe dfmt_fe). cbn [app].
+    destruct (nv_lead d (n0 :: n' ++ hws (d_mid1 d) ++ 61 :: hws (d_mid2 d) ++ print_value d v ++
+                         hws (d_trail d) ++ tail_comment d ++ 10 :: rest) s) as (s1 & (S1 & S2 & S3) & E1).
+    rewrite E1. rewrite nv_vis; [|lia|tauto|lia]. zb.
+    change (sstart fe) with 37. zb. rewrite andb_false_r. cbn [negb].
+    unfold enc_other. change (negb (ostart fe =? 0)) with false. cbv iota.
+    assert (RD1 : ready (tick s1 n0) E).
+    { destruct RD as (R1 & R2 & R3 & R4 & R5). unfold ready. autorewrite with pst. rewrite S1, S2. auto. }
+    destruct (first_char_state (tick s1 n0) E n0 RD1) as [P2 V2]; [lia|].
+    cbn [app].
+    destruct (option_core fe dfmt_fe (aopt a) a d n0 n' v rest _ E _ eq_refl WN WV P2 V2) as (s' & E2 & Q).
+    exists s'. split; [exact E2|exact Q].
+  Qed.
+
+  (* a section start character while no section is open: the section starts *)
+  Lemma enc_open d n rest s prev :
+    prev <> PSectEnd -> wfo (asect a) n -> ready s [] ->
+    exists s', format_enc fe a prev (lead d ++ [37] ++ n ++ name_end d ++ rest) s = (PSection, rest, s') /\
+               pelems (pth s') = [n] /\ pbuf (pth s') = true /\ pcurr s' = Z.lor PSection PName.
+  Proof.
+    intros PV WN RD. unfold format_enc. change (sstart fe =? send fe) with true. cbv iota.
+    apply Z.eqb_neq in PV. rewrite PV. unfold nextvis. rewrite (nextvis_go_ext fe dfmt_fe).
+    destruct (nv_lead d ([37] ++ n ++ name_end d ++ rest) s) as (s1 & (S1 & S2 & S3) & E1).
+    rewrite E1. cbn [app]. rewrite nv_vis by (reflexivity || lia). zb.
+    assert (PE : pelems (pth (tick s1 37)) = []).
+    { autorewrite with pst. rewrite S1. destruct RD as (R1 & _). exact R1. }
+    rewrite PE. cbn [andb]. change (sstart fe) with 37. zb. cbn [negb].
+    assert (RD1 : ready (tick s1 37) []).
+    { destruct RD as (R1 & R2 & R3 & R4 & R5). unfold ready. autorewrite with pst. rewrite S1, S2. auto. }
+    destruct (enc_section_name d n rest (tick s1 37) [] WN RD1) as (s' & E2 & Q1 & Q2 & Q3 & Q4).
+    exists s'. auto.
+  Qed.
+
+  (* the same character while a section is open: that section ends, the name is still to be read *)
+  Lemma enc_close d rest s E x prev :
+    prev <> PSectEnd -> ready s (x :: E) ->
+    exists s', format_enc fe a prev (lead d ++ [37] ++ rest) s = (PSectEnd, rest, s') /\
+               pelems (pth s') = x :: E /\ pcurr s' = PSectEnd.
+  Proof.
+    intros PV RD. unfold format_enc. change (sstart fe =? send fe) with true. cbv iota.
+    apply Z.eqb_neq in PV. rewrite PV. unfold nextvis. rewrite (nextvis_go_ext fe dfmt_fe).
+    destruct (nv_lead d ([37] ++ rest) s) as (s1 & (S1 & S2 & S3) & E1).
+    rewrite E1. cbn [app]. rewrite nv_vis by (reflexivity || lia). zb.
+    assert (PE : pelems (pth (tick s1 37)) = x :: E).
+    { autorewrite with pst. rewrite S1. destruct RD as (R1 & _). exact R1. }
+    rewrite PE. change (sstart fe) with 37. zb. cbn [andb].
+    eexists. split; [reflexivity|]. autorewrite with pst. rewrite S1. destruct RD as (R1 & _). auto.
+  Qed.
+
+  Lemma enc_reopen d n rest s :
+    wfo (asect a) n -> ready s [] ->
+    exists s', format_enc fe a PSectEnd (n ++ name_end d ++ rest) s = (PSection, rest, s') /\
+               pelems (pth s') = [n] /\ pbuf (pth s') = true /\ pcurr s' = Z.lor PSection PName.
+  Proof.
+    intros WN RD. unfold format_enc. change (sstart fe =? send fe) with true. cbv iota.
+    change (PSectEnd =? PSectEnd) with true. cbv iota.
+    destruct (enc_section_name d n rest s [] WN RD) as (s' & E2 & Q1 & Q2 & Q3 & Q4). exists s'. auto.
+  Qed.
+
+  Lemma enc_eof final s prev :
+    prev <> PSectEnd ->
+    exists s', format_enc fe a prev (lead final) s = (0, [], s').
+  Proof.
+    intros PV. unfold format_enc. change (sstart fe =? send fe) with true. cbv iota.
+    apply Z.eqb_neq in PV. rewrite PV. unfold nextvis. rewrite (nextvis_go_ext fe dfmt_fe).
+    destruct (nv_lead final [] s) as (s1 & _ & E1). rewrite app_nil_r in E1. rewrite E1.
+    cbn [nextvis_go]. zb. eexists. reflexivity.
+  Qed.
+End Enc.
+
+(* ---------------------------------------------------------------- separated style *)
+Section Sep.
+  Variable a : allow.
+
+  (* name characters of the separated style inside the brackets *)
+  Definition snc (c : Z) : bool := onc c && negb (c =? 93).
+
+  Lemma sep_step_name c a0 l s :
+    snc c = true -> 0 < a0 ->
+    sep_loop fs a c (a0 :: l) s = sep_loop fs a a0 l (addch (tick (set_valid s) a0) a0).
+  Proof.
+    intros Hc P. unfold snc in Hc. apply andb_true_iff in Hc. destruct Hc as [H1 H2].
+    apply onc_spec in H1. destruct H1 as (B & SP & _ & N35 & _). apply negb_true_iff, Z.eqb_neq in H2.
+    rewrite sep_loop_eq. unfold sep_body. change (send fs) with 93.
+    unfold iscomment. cbn [fs com0 com1 com2 com3]. zb. cbn [negb orb andb]. rewrite SP. cbn [negb]. zb. reflexivity.
+  Qed.
+  Lemma sep_step_blank c a0 l s :
+    hspace c = true -> 0 < a0 ->
+    sep_loop fs a c (a0 :: l) s = sep_loop fs a a0 l (addch (tick s a0) a0).
+  Proof.
+    intros Hc P. apply hspace_spec in Hc as Hc'. assert (SP : isspace c = true) by (apply isspace_spec; lia).
+    rewrite sep_loop_eq. unfold sep_body. change (send fs) with 93.
+    unfold iscomment. cbn [fs com0 com1 com2 com3]. zb. cbn [negb orb andb]. rewrite SP. cbn [negb]. zb. reflexivity.
+  Qed.
+  Lemma sep_step_end l s :
+    sep_loop fs a 93 l s = section_add (asect a) (Z.lor PSection PName) l s.
+  Proof. rewrite sep_loop_eq. reflexivity. Qed.
+
+  (* blanks in front of the name overwrite each other *)
+  Lemma sep_lead : forall w c s d l E F,
+    Forall (fun x => hspace x = true) (c :: w) -> 0 < d < 256 ->
+    pth s = mkPath E [c] 1 F false true ->
+    exists s', sep_loop fs a c (w ++ d :: l) s = sep_loop fs a d l s' /\
+               pth s' = mkPath E [d] 1 F false true /\ valid s' = valid s /\ pcurr s' = pcurr s.
+  Proof.
+    induction w as [|x w IH]; intros c s d l E F FA PD HP.
+    - pose proof (Forall_inv FA) as Hc. cbn beta in Hc. cbn [app]. rewrite sep_step_blank by (assumption || lia).
+      eexists. split; [reflexivity|].
+      split; [rewrite pth_addch, pth_tick, HP; cbn [path_addchar pbuf rpost pkeep negb pelems plen pfirst];
+              now rewrite byte_of_small by lia|].
+      split; now autorewrite with pst.
+    - pose proof (Forall_inv FA) as Hc. pose proof (Forall_inv_tail FA) as FA'. cbn beta in Hc.
+      pose proof (Forall_inv FA') as Hx. cbn beta in Hx. apply hspace_spec in Hx as Hx'.
+      cbn [app]. rewrite sep_step_blank by (assumption || lia).
+      destruct (IH x (addch (tick s x) x) d l E F FA' PD) as (s' & E1 & P2 & V2 & C2).
+      + rewrite pth_addch, pth_tick, HP. cbn [path_addchar pbuf rpost pkeep negb pelems plen pfirst].
+        now rewrite byte_of_small by lia.
+      + exists s'. autorewrite with pst in V2, C2. auto.
+  Qed.
+
+  Lemma sep_scan : forall w c s d l E R F K,
+    Forall (fun x => snc x = true) (c :: w) -> 0 < d < 256 ->
+    pth s = mkPath E (c :: R) (len (c :: R)) F K true -> (K = true \/ R = []) -> len (c :: R) + len w < VALID_MOD ->
+    exists s', sep_loop fs a c (w ++ d :: l) s = sep_loop fs a d l s' /\
+               pth s' = mkPath E (d :: rev w ++ c :: R) (len (d :: rev w ++ c :: R)) F true true /\
+               valid s' = len (rev w ++ c :: R) /\ pcurr s' = pcurr s.
+  Proof.
+    induction w as [|x w IH]; intros c s d l E R F K FA PD HP HK HL.
+    - pose proof (Forall_inv FA) as Hc. cbn beta in Hc. cbn [app]. rewrite sep_step_name by (assumption || lia).
+      rewrite len_nil in HL. pose proof (len_nonneg R). rewrite len_cons in HL.
+      destruct (set_valid_path s E c R _ F K HP) as [P1 V1]; [rewrite len_cons; lia|].
+      eexists. split; [reflexivity|]. cbn [rev app].
+      split; [rewrite pth_addch, pth_tick, P1; now rewrite addchar_keep by lia|].
+      split; [now rewrite valid_addch, valid_tick|now autorewrite with pst].
+    - pose proof (Forall_inv FA) as Hc. pose proof (Forall_inv_tail FA) as FA'. cbn beta in Hc.
+      pose proof (Forall_inv FA') as Hx. cbn beta in Hx.
+      assert (Bx : 0 < x < 256).
+      { unfold snc in Hx. apply andb_true_iff in Hx. destruct Hx as [H1 _]. apply onc_spec in H1. tauto. }
+      cbn [app]. rewrite sep_step_name by (assumption || lia).
+      rewrite !len_cons in HL. pose proof (len_nonneg R). pose proof (len_nonneg w).
+      destruct (set_valid_path s E c R _ F K HP) as [P1 V1]; [rewrite len_cons; lia|].
+      destruct (IH x (addch (tick (set_valid s) x) x) d l E (c :: R) F true FA' PD) as (s' & E1 & P2 & V2 & C2).
+      + rewrite pth_addch, pth_tick, P1. apply addchar_keep. lia.
+      + now left.
+      + rewrite !len_cons. lia.
+      + exists s'. split; [exact E1|]. cbn [rev]. rewrite <- !app_assoc. cbn [app].
+        split; [exact P2|]. split; [exact V2|]. rewrite C2. now autorewrite with pst.
+  Qed.
+
+  Lemma sep_scan_blanks : forall w c s d l E R F,
+    Forall (fun x => hspace x = true) (c :: w) -> 0 < d < 256 ->
+    pth s = mkPath E (c :: R) (len (c :: R)) F true true ->
+    exists s', sep_loop fs a c (w ++ d :: l) s = sep_loop fs a d l s' /\
+               pth s' = mkPath E (d :: rev w ++ c :: R) (len (d :: rev w ++ c :: R)) F true true /\
+               valid s' = valid s /\ pcurr s' = pcurr s.
+  Proof.
+    induction w as [|x w IH]; intros c s d l E R F FA PD HP.
+    - pose proof (Forall_inv FA) as Hc. cbn beta in Hc. cbn [app]. rewrite sep_step_blank by (assumption || lia).
+      eexists. split; [reflexivity|]. cbn [rev app].
+      split; [rewrite pth_addch, pth_tick, HP; now rewrite addchar_keep by lia|].
+      split; now autorewrite with pst.
+    - pose proof (Forall_inv FA) as Hc. pose proof (Forall_inv_tail FA) as FA'. cbn beta in Hc.
+      pose proof (Forall_inv FA') as Hx. cbn beta in Hx. apply hspace_spec in Hx as Hx'.
+      cbn [app]. rewrite sep_step_blank by (assumption || lia).
+      destruct (IH x (addch (tick s x) x) d l E (c :: R) F FA' PD) as (s' & E1 & P2 & V2 & C2).
+      + rewrite pth_addch, pth_tick, HP. apply addchar_keep. lia.
+      + exists s'. split; [exact E1|]. cbn [rev]. rewrite <- !app_assoc. cbn [app].
+        split; [exact P2|]. autorewrite with pst in V2, C2. auto.
+  Qed.
+End Sep.
